@@ -62,6 +62,7 @@ def check(ctx: Ctx) -> str:
     r8_recursion(ctx)
     r10_uniqueness(ctx)
     r13_emitted_literals(ctx)
+    r14_dependency_finder(ctx)
     from ..emitrules import c01_skeleton_rules
 
     c01_skeleton_rules(ctx)
@@ -611,3 +612,36 @@ def r13_emitted_literals(ctx: Ctx) -> None:
                               f"{q} writes `{ast.unparse(e)}` inside a {quote}...{quote} literal of the generated module; unless that text is an identifier, a quote or backslash in it (a template name such as a\"b, a file name, user text) ends the literal early and compile() raises builtins.SyntaxError - emit the whole message with !r instead",
                               f"{m.rel}:{c.lineno}", detail={"site": f"{mod}:{q}", "value": ast.unparse(e)})
     ctx.floor("interpolations inside emitted literals", n_sites, 3)
+
+
+# ------------------------------------------------------------------------ R14
+def r14_dependency_finder(ctx: Ctx) -> None:
+    """`_filter_test_common` reads `self.filters[node.name]` / `self.tests[node.name]` without a
+    default: the ids are assigned by pull_dependencies from what DependencyFinderVisitor
+    collected.  The lookup is total only if the finder reaches every Filter / Test node of the
+    unit being compiled - it must descend into the operands and arguments of each one and stop
+    only at blocks (compiled as their own unit, with their own pull_dependencies)."""
+    ctx.rule("R14", "DependencyFinderVisitor registers every Filter / Test of a compilation unit: each visit_<Kind> records the name in its own set and always continues with generic_visit; only visit_Block stops")
+    repo = ctx.repo
+    dv = repo.cls("compiler:DependencyFinderVisitor")
+    want = {"visit_Filter": "filters", "visit_Test": "tests"}
+    ctx.need(set(want) <= set(dv.methods), "DependencyFinderVisitor.visit_Filter / visit_Test not found")
+    for name, fn in sorted(dv.methods.items()):
+        if not name.startswith("visit_"):
+            continue
+        body = [s_ for s_ in fn.body if not (isinstance(s_, ast.Expr) and isinstance(s_.value, ast.Constant)) and not isinstance(s_, ast.Pass)]
+        if name == "visit_Block":
+            ctx.check(not body, "finder:Block", "compiler:DependencyFinderVisitor.visit_Block", "block boundary", "visit_Block must stop the search (blocks are compiled separately)", f"src/jinja2/compiler.py:{fn.lineno}")
+            continue
+        par = fn.args.args[1].arg if len(fn.args.args) > 1 else "node"
+        descends = any(isinstance(s_, ast.Expr) and isinstance(s_.value, ast.Call) and astq.callee(s_.value) == "self.generic_visit" and [ast.unparse(a) for a in s_.value.args] == [par] for s_ in body)
+        ctx.check(descends, f"finder:{name}:descends", f"compiler:DependencyFinderVisitor.{name}", "does not continue into the node's children",
+                  f"{name} does not call self.generic_visit({par}) unconditionally: a filter or test that only occurs inside the operand / arguments of this node (`{{% if items|length is gt 2 %}}`, `x is divisibleby(y|int)`) gets no id in pull_dependencies and `_filter_test_common` raises KeyError while the template is compiled",
+                  f"src/jinja2/compiler.py:{fn.lineno}")
+        if name in want:
+            adds = [c for c in astq.calls(fn) if astq.callee(c) == f"self.{want[name]}.add" and [ast.unparse(a) for a in c.args] == [f"{par}.name"]]
+            ctx.check(len(adds) == 1 and not astq.guard_atoms(fn, adds[0]), f"finder:{name}:records", f"compiler:DependencyFinderVisitor.{name}", "name not recorded",
+                      f"{name} must add {par}.name to self.{want[name]} unconditionally", f"src/jinja2/compiler.py:{fn.lineno}")
+    ftc = repo.func("compiler:CodeGenerator._filter_test_common")
+    s = ast.unparse(ftc.node)
+    ctx.check("self.filters[node.name]" in s and "self.tests[node.name]" in s, "finder:consumers", "compiler:CodeGenerator._filter_test_common", "id lookup", "the id of a filter / test is looked up by node.name in the maps pull_dependencies filled", ftc.loc())
